@@ -62,4 +62,32 @@ CHECKS = {
              "thorough": {"checks": 120, "shards": 16, "timeout": 5400, "shrink": "120s"}},
         ],
     },
+    "C19": {
+        "level": "exploration",
+        "rule": "rapid-generated peer scripts (fork-biased: header batches, view changes / reorganisations of any depth, partial filter-header progress, disconnects, clock advances) with a subscriber registered before any peer session exists, on a database wrapper that stamps every filter-header index commit with a global sequence number and the tip it installs; plus generated backlog requests at quiescent moments and in the middle of a batch being announced. Oracles at every quiescence: (1) replaying all received events reproduces the committed chain up to the filter tip, (2) per-event content / ordering, (3) every connected event is received after a commit covering its block, (4) backlog == committed blocks above the requested height; mid-flight backlog + later events replay without gap. Non-trivial = a reorganisation that crosses the filter tip, or a backlog request strictly inside (0, filter tip), or an evaluated mid-flight backlog request; distinct = distinct case JSON",
+        "assumptions": NETSIM_ASSUME + [
+            "rule (3) is an external-observer check: an emit-before-commit defect is detected only if the subscriber wins the race against the commit for at least one event of a batch",
+            "mid-flight backlog probes are evaluated only when no disconnect was in flight (otherwise the subscriber's starting point is ambiguous)",
+            "the harness reads the filter-header tip key inside the committing transaction (bucket header-index, key regular): a layout change is reported as a harness error, not a violation",
+        ],
+        "units": [
+            {"name": "netsim", "module": "harness", "pkg": "./checks/c19", "test": "TestC19", "tags": "verif",
+             "quick": {"checks": 40, "shards": 16, "timeout": 600},
+             "thorough": {"checks": 500, "shards": 16, "timeout": 3600, "shrink": "60s"}},
+        ],
+    },
+    "C13": {
+        "level": "exploration",
+        "rule": "(store) rapid-generated state-machine histories on the real ban store over bbolt in a synctest bubble: ban / unban / status / census / clock advance (incl. jumps to just before and after an expiry) / reopen / junk input over 12 textual spellings per address family and symbolic masks, compared with a map model keyed by the canonical (ip, mask); the two bbolt indexes are read back at the end. Non-trivial = a generated status query saw one network both strictly before floor(expiry) and at/after expiry of the same ban, or queried a banned network after a reopen that followed its ban; distinct = distinct case JSON",
+        "assumptions": [
+            "expiry is stored with one-second granularity: inside [floor(expiry), expiry) either answer is accepted",
+            "an IPv4 network written with a 16-byte mask is not generated (API-level representation, not a textual form of an address; production callers pass a nil mask)",
+            "a shorter re-ban while a longer one is in force: both last-write-wins and keeping the older record are accepted",
+        ],
+        "units": [
+            {"name": "banstore", "module": "harness", "pkg": "./checks/c13", "test": "TestC13Store", "tags": "verif",
+             "quick": {"checks": 1500, "shards": 16, "timeout": 600},
+             "thorough": {"checks": 30000, "shards": 16, "timeout": 3600, "shrink": "60s"}},
+        ],
+    },
 }
